@@ -852,9 +852,18 @@ pub async fn cmd_tls(args: Vec<String>) -> Result<()> {
     // two independent certificate sets from the bundled generator (fresh keys every run)
     let set1 = PathBuf::from(format!("{out}.certs-a"));
     let set2 = PathBuf::from(format!("{out}.certs-b"));
-    for d in [&set1, &set2] {
+    // The directories are not fresh when the final sets are written: a developer regenerates the set in
+    // place when it has expired, with or without an expiry date.  Set 1 replaces a no-expiry set (whose
+    // files are a few bytes longer), set 2 is the third default set in its directory.
+    for (d, history) in [(&set1, [true, false, false]), (&set2, [false, false, false])] {
         let _ = std::fs::remove_dir_all(d);
-        gen_certs(d)?;
+        for (n, no_expiry) in history.iter().enumerate() {
+            if d == &set1 && n == 2 {
+                break;
+            }
+            gen_certs_opts(d, *no_expiry)?;
+        }
+        log.emit("certs", json!({"dir": d.file_name().map(|f| f.to_string_lossy().to_string()), "regenerated_in_place": true}));
     }
     // a self-signed client certificate
     let ss = rcgen::generate_simple_self_signed(vec!["localhost".to_string()])?;
@@ -900,12 +909,21 @@ pub async fn cmd_tls(args: Vec<String>) -> Result<()> {
     std::fs::write(chain_dir.join("chain_T_with_caO.pem"), pem(&[read_der(set1.join("client/localhost.der"))?, read_der(set2.join("client/ca.der"))?]))?;
     std::fs::write(chain_dir.join("chain_O_with_caT.pem"), pem(&[read_der(set2.join("client/localhost.der"))?, read_der(set1.join("client/ca.der"))?]))?;
     // the set "trusted" refers to is set 1 (T); set 2 is O
-    let servers = [
-        ("trusted", start_server(&set1, "127.0.0.1:0")?),
-        ("other_ca", start_server(&set2, "127.0.0.1:0")?),
-        ("cert_O_accepts_T", start_server(&mix_ot, "127.0.0.1:0")?),
-        ("cert_T_accepts_O", start_server(&mix_to, "127.0.0.1:0")?),
-    ];
+    // a server that cannot start with files the bundled generator wrote is an outcome, not a harness
+    // failure: its pairings are then attempted against a dead port and judged like any other
+    let mut servers = vec![];
+    for (name, dir) in [("trusted", &set1), ("other_ca", &set2), ("cert_O_accepts_T", &mix_ot), ("cert_T_accepts_O", &mix_to)] {
+        match start_server(dir, "127.0.0.1:0") {
+            Ok(h) => {
+                log.emit("server_start", json!({"server": name, "ok": true, "detail": ""}));
+                servers.push((name, h));
+            }
+            Err(e) => {
+                log.emit("server_start", json!({"server": name, "ok": false, "detail": e.to_string().chars().take(120).collect::<String>()}));
+                servers.push((name, ServerHandle::placeholder("127.0.0.1:9".parse()?)));
+            }
+        }
+    }
     let ca1 = read_der(set1.join("client/ca.der"))?;
     let ca2 = read_der(set2.join("client/ca.der"))?;
     let mut k = 0u64;
